@@ -101,6 +101,22 @@ struct Overwrite {
     bytes: Vec<u8>,
 }
 
+/// A 16-byte entry header with generated field values, written AT an entry boundary (or
+/// behind the last entry): structured damage, as opposed to random bytes at a random offset.
+#[derive(Clone, Debug, Serialize, Deserialize)]
+struct Crafted {
+    /// which file (fraction of the file count)
+    file: u16,
+    /// which entry boundary (fraction of entries-in-file + 1; the last one = end of the file)
+    entry: u16,
+    len: u32,
+    stamp: u64,
+    crc: u32,
+    /// what is behind the header: 0 = the old bytes, 1 = nothing (the file ends there),
+    /// 2 = everything up to the old end of the file reads as zero, 3 = 32 zero bytes, then the end
+    rest: u8,
+}
+
 #[derive(Clone, Debug, Serialize, Deserialize)]
 struct ImageCase {
     entries: Vec<EntrySpec>,
@@ -112,6 +128,42 @@ struct ImageCase {
     /// already exists (aimed at the 8-hex-digit boundary of the file name)
     #[serde(default)]
     start_seq: u64,
+    /// generated entry headers placed at entry boundaries
+    #[serde(default)]
+    crafted: Vec<Crafted>,
+}
+
+/// Header field values: the degenerate ones (0, 1, all ones, "a few bytes") far more often
+/// than arbitrary ones; every field independently of the others.
+fn crafted() -> impl Strategy<Value = Crafted> {
+    (
+        any::<u16>(),
+        any::<u16>(),
+        prop_oneof![
+            4 => Just(0u32),
+            2 => 1u32..=4,
+            2 => 5u32..=64,
+            1 => Just(u32::MAX),
+            1 => any::<u32>(),
+        ],
+        stamp(),
+        prop_oneof![
+            3 => Just(0u32),
+            1 => Just(u32::MAX),
+            // crc32 of one zero byte: self-consistent only with len 1 in front of a zero byte
+            1 => Just(0xd202_ef8du32),
+            1 => any::<u32>(),
+        ],
+        0u8..4,
+    )
+        .prop_map(|(file, entry, len, stamp, crc, rest)| Crafted {
+            file,
+            entry,
+            len,
+            stamp,
+            crc,
+            rest,
+        })
 }
 
 /// Payload sizes aimed at powers of two and their neighbours.
@@ -277,13 +329,15 @@ fn small_image_case() -> impl Strategy<Value = ImageCase> {
             0..=10,
         ),
         proptest::collection::vec(any::<u16>(), 48),
+        proptest::collection::vec(crafted(), 0..=6),
     )
-        .prop_map(|(entries, max_file_size, overwrites, bit_samples)| ImageCase {
+        .prop_map(|(entries, max_file_size, overwrites, bit_samples, crafted)| ImageCase {
             entries,
             max_file_size,
             overwrites,
             bit_samples,
             start_seq: 0,
+            crafted,
         })
 }
 
@@ -331,6 +385,7 @@ fn large_image_case() -> impl Strategy<Value = ImageCase> {
                 overwrites,
                 bit_samples: vec![],
                 start_seq: 0,
+                crafted: vec![],
             }
         })
 }
@@ -354,6 +409,9 @@ fn image_case_with(big: u32) -> impl Strategy<Value = ImageCase> {
 // ---------------------------------------------------------------------------------------
 
 type E = (Vec<u8>, u64);
+
+/// the three fields of the 16-byte entry header: (name, first byte, end)
+const HEADER_FIELDS: [(&str, usize, usize); 3] = [("length", 0, 4), ("stamp", 4, 12), ("crc", 12, 16)];
 
 struct FileImg {
     name: String,
@@ -532,14 +590,21 @@ fn zero_blocks(mutd: &[u8], mut at: usize) -> usize {
 }
 
 /// Reference reader for the documented layout, from offset `pos`: frames len|stamp|crc|data,
-/// stops at the first frame that is short or whose CRC-32 does not match.
-fn ref_decode(bytes: &[u8], mut pos: usize) -> Vec<E> {
+/// stops at the first frame that is short or whose CRC-32 does not match. `accept_empty` =
+/// false is the documented reader ("an entry never has an empty payload": a frame with
+/// len 0 is not an entry, whatever its stamp and crc fields hold -- crc32 of nothing is 0,
+/// so `len 0 | any stamp | crc 0` would otherwise be self-consistent); true is the reader
+/// as it was before KF-C10-02 was repaired (only used to describe that finding).
+fn ref_decode_with(bytes: &[u8], mut pos: usize, accept_empty: bool) -> Vec<E> {
     let mut out = Vec::new();
     while pos + 16 <= bytes.len() {
         let len = u32::from_le_bytes([bytes[pos], bytes[pos + 1], bytes[pos + 2], bytes[pos + 3]]) as usize;
         let mut sb = [0u8; 8];
         sb.copy_from_slice(&bytes[pos + 4..pos + 12]);
         let crc = u32::from_le_bytes([bytes[pos + 12], bytes[pos + 13], bytes[pos + 14], bytes[pos + 15]]);
+        if len == 0 && !accept_empty {
+            break;
+        }
         let end = match (pos + 16).checked_add(len) {
             Some(e) if e <= bytes.len() => e,
             _ => break,
@@ -553,6 +618,10 @@ fn ref_decode(bytes: &[u8], mut pos: usize) -> Vec<E> {
     out
 }
 
+fn ref_decode(bytes: &[u8], pos: usize) -> Vec<E> {
+    ref_decode_with(bytes, pos, false)
+}
+
 struct Outcome {
     /// what the property demands of the mutated file: its first `strict` entries, unchanged
     strict: usize,
@@ -561,14 +630,22 @@ struct Outcome {
     ///             the stored (never written) stamp;
     ///  KF-C10-02  where decoding should stop, a 16-byte all-zero block frames as an entry
     ///             (len 0, crc 0 = crc32 of nothing) and reading goes on behind it.
+    /// with KF-C10-01 alone (present iff some entry is damaged in its stamp field only)
     tolerant: Option<Vec<E>>,
+    /// with KF-C10-02 (and KF-C10-01 if `uses_stamp`); present iff `uses_zero`
+    tolerant_zero: Option<Vec<E>>,
     uses_stamp: bool,
-    uses_zero: bool,
     header_damaged: bool,
     /// the first damaged frame is self-consistent (its stored CRC-32 matches its stored data)
     /// without being an all-zero block: no checksum can tell it from an appended entry, the
     /// property cannot demand its rejection -> the comparison of this file is skipped, counted
     forged: bool,
+    /// where recovery of the file must stop, the file holds a whole 16-byte header whose length
+    /// field is 0 (measured, for the labels)
+    stop_len0: bool,
+    /// ... and whose crc field is 0 = crc32(b"") while the stamp field is not 0: the only
+    /// self-consistent frame that is not an all-zero block and not an entry
+    stop_empty_frame: bool,
 }
 
 /// Expected recovery of one file whose bytes were `f.bytes` and now are `mutd`.
@@ -579,7 +656,6 @@ fn expect_file(all: &[E], f: &FileImg, mutd: &[u8]) -> Outcome {
     let mut strict_open = true;
     let mut tolerant: Vec<E> = Vec::new();
     let mut uses_stamp = false;
-    let mut uses_zero = false;
     let mut stop = *f.offs.last().unwrap();
     for k in 0..all.len() {
         match entry_status(orig, mutd, f.offs[k], f.offs[k + 1]) {
@@ -601,20 +677,33 @@ fn expect_file(all: &[E], f: &FileImg, mutd: &[u8]) -> Outcome {
         }
     }
     let mut forged = false;
+    let mut stop_len0 = false;
+    let mut stop_empty_frame = false;
+    let mut tolerant_zero: Option<Vec<E>> = None;
     if mutd.len() >= stop {
         if zero_blocks(mutd, stop) > 0 {
-            uses_zero = true;
-            tolerant.extend(ref_decode(mutd, stop));
+            let mut t = tolerant.clone();
+            t.extend(ref_decode_with(mutd, stop, true));
+            tolerant_zero = Some(t);
         } else if !ref_decode(mutd, stop).is_empty() {
+            // self-consistent AND non-empty: a frame with len 0 is never an entry (documented
+            // in WalEntry::decode), so `len 0 | stamp | crc 0` is NOT a forgery the reader may
+            // accept -- it stays under the strict comparison
             forged = true;
+        }
+        if mutd.len() >= stop + 16 && mutd[stop..stop + 4] == [0u8; 4] {
+            stop_len0 = true;
+            stop_empty_frame = mutd[stop + 12..stop + 16] == [0u8; 4] && mutd[stop + 4..stop + 12] != [0u8; 8];
         }
     }
     Outcome {
+        stop_len0,
+        stop_empty_frame,
         forged,
         strict,
-        tolerant: if uses_stamp || uses_zero { Some(tolerant) } else { None },
+        tolerant: if uses_stamp { Some(tolerant) } else { None },
+        tolerant_zero,
         uses_stamp,
-        uses_zero,
         header_damaged,
     }
 }
@@ -677,6 +766,12 @@ fn compare_recovered(
         at += l.len();
     }
     let mid = &got[n_before..got.len() - n_after];
+    if exp.stop_len0 {
+        ctx.label("stop_frame:len=0");
+    }
+    if exp.stop_empty_frame {
+        ctx.label("stop_frame:len=0,crc=0,stamp!=0");
+    }
     if exp.forged {
         ctx.abstain();
         return Ok(());
@@ -690,20 +785,25 @@ fn compare_recovered(
     }
     if let Some(tol) = &exp.tolerant {
         if mid == &tol[..] {
-            let mut ok = true;
+            if ctx.tolerate(KF_STAMP) {
+                return Ok(());
+            }
+            return Err(fail("mutation inside the stamp field of an entry header is accepted: an entry is returned with a stamp that was never written"));
+        }
+    }
+    if let Some(tol) = &exp.tolerant_zero {
+        if mid == &tol[..] {
+            let mut ok = ctx.tolerate(KF_ZERO);
             if exp.uses_stamp {
                 ok &= ctx.tolerate(KF_STAMP);
-            }
-            if exp.uses_zero {
-                ok &= ctx.tolerate(KF_ZERO);
             }
             if ok {
                 return Ok(());
             }
-            let why = match (exp.uses_stamp, exp.uses_zero) {
-                (true, false) => "mutation inside the stamp field of an entry header is accepted: an entry is returned with a stamp that was never written",
-                (false, true) => "a 16-byte all-zero block is returned as an entry (len 0, crc 0) that was never appended",
-                _ => "stamp-field damage accepted and all-zero blocks returned as entries",
+            let why = if exp.uses_stamp {
+                "stamp-field damage accepted and all-zero blocks returned as entries"
+            } else {
+                "a 16-byte all-zero block is returned as an entry (len 0, crc 0) that was never appended"
             };
             return Err(fail(why));
         }
@@ -779,6 +879,8 @@ fn check_image(case: &ImageCase, ctx: &mut CaseCtx<'_>) -> Result<(), String> {
     }
 
     let mut evals: u64 = 0;
+    let mut field_evals: u64 = 0;
+    let mut sparse_evals: u64 = 0;
     for m in 0..img.files.len() {
         let f = &img.files[m];
         let orig = f.bytes.clone();
@@ -879,7 +981,180 @@ fn check_image(case: &ImageCase, ctx: &mut CaseCtx<'_>) -> Result<(), String> {
             }, ctx)?;
         }
 
+        // ---- field-granular damage of every entry header: every non-empty subset of
+        //      {length, stamp, crc} reads back as zeros / as ones while the other fields keep
+        //      what was written (a torn or partially persisted header), with the bytes behind
+        //      the header kept / missing (the file ends behind the header: the payload never
+        //      reached the disk) / reading as zero up to the old end of the file
+        for k in 0..f.entries.len() {
+            let a = f.offs[k];
+            for subset in 1u8..8 {
+                for fill in [0u8, 0xff] {
+                    for rest in 0u8..3 {
+                        if big_file && (fill != 0 || rest == 2) {
+                            continue;
+                        }
+                        evals += 1;
+                        field_evals += 1;
+                        let mut w = orig.clone();
+                        let mut names = Vec::new();
+                        for (i, (name, s0, e0)) in HEADER_FIELDS.iter().enumerate() {
+                            if subset >> i & 1 == 1 {
+                                w[a + s0..a + e0].fill(fill);
+                                names.push(*name);
+                            }
+                        }
+                        match rest {
+                            1 => w.truncate(a + WAL_ENTRY_OVERHEAD),
+                            2 => w[a + WAL_ENTRY_OVERHEAD..].fill(0),
+                            _ => {}
+                        }
+                        check_mutation(&img, m, &w, &|| {
+                            format!(
+                                "{} ({} bytes, {} entries): header of entry {} (offset {}): field(s) {} read back as {:#04x}, {}",
+                                f.name,
+                                orig.len(),
+                                f.entries.len(),
+                                k,
+                                a,
+                                names.join("+"),
+                                fill,
+                                ["bytes behind the header unchanged", "the file ends right behind the header", "everything behind the header reads as zero"][rest as usize]
+                            )
+                        }, ctx)?;
+                    }
+                }
+            }
+        }
+
+        // ---- sparse blocks: a region that reads as zero (never-written tail behind the last
+        //      entry, or everything from an entry start on) with ONE bit set in its first 16-byte
+        //      block. Quick: one generated bit of each of the 16 bytes of the tail's first block
+        //      (thorough: all 128) + one in the second block; per entry one generated bit in each
+        //      header field and one in the block behind it
+        let sample = |i: usize| -> usize { case.bit_samples.get(i % case.bit_samples.len().max(1)).copied().unwrap_or(0) as usize };
+        {
+            let mut tail_bits: Vec<usize> = Vec::new();
+            if thorough && !big_file {
+                tail_bits.extend(0..128);
+            } else {
+                for byte in 0..16 {
+                    tail_bits.push(byte * 8 + (sample(byte) & 7));
+                }
+            }
+            tail_bits.push(128 + (sample(16) & 127));
+            for b in tail_bits {
+                evals += 1;
+                sparse_evals += 1;
+                let mut w = orig.clone();
+                w.extend_from_slice(&[0u8; 48]);
+                w[orig.len() + b / 8] ^= 1 << (b % 8);
+                check_mutation(&img, m, &w, &|| {
+                    format!(
+                        "{} ({} bytes, {} entries): 48 zero bytes behind the last entry with bit {} of tail byte {} set",
+                        f.name,
+                        orig.len(),
+                        f.entries.len(),
+                        b % 8,
+                        b / 8
+                    )
+                }, ctx)?;
+            }
+        }
+        if !big_file {
+            for k in 0..f.entries.len() {
+                let a = f.offs[k];
+                let picks = [
+                    (sample(3 * k) & 31),
+                    32 + (sample(3 * k + 1) & 63),
+                    96 + (sample(3 * k + 2) & 31),
+                    128 + (sample(3 * k + 3) & 127),
+                ];
+                for b in picks {
+                    if a + b / 8 >= orig.len() {
+                        continue;
+                    }
+                    evals += 1;
+                    sparse_evals += 1;
+                    let mut w = orig.clone();
+                    w[a..].fill(0);
+                    w[a + b / 8] ^= 1 << (b % 8);
+                    check_mutation(&img, m, &w, &|| {
+                        format!(
+                            "{} ({} bytes, {} entries): everything from the start of entry {} (offset {}) reads as zero except bit {} of byte {} ({})",
+                            f.name,
+                            orig.len(),
+                            f.entries.len(),
+                            k,
+                            a,
+                            b % 8,
+                            a + b / 8,
+                            locate(f, a + b / 8)
+                        )
+                    }, ctx)?;
+                }
+            }
+        }
+
         img.store.set(&f.name, orig.clone());
+    }
+    if field_evals > 0 {
+        ctx.label("mutation:header_field_subset(zero/ones)x(kept/cut/zero_rest)");
+    }
+    if sparse_evals > 0 {
+        ctx.label("mutation:zero_region_with_one_bit_set");
+    }
+
+    // ---- generated entry headers written at entry boundaries / behind the last entry
+    if !img.files.is_empty() {
+        for cr in &case.crafted {
+            let m = (cr.file as usize * img.files.len()) >> 16;
+            let f = &img.files[m];
+            let orig = &f.bytes;
+            if orig.len() > 32_768 {
+                continue;
+            }
+            let k = (cr.entry as usize * (f.entries.len() + 1)) >> 16;
+            let a = f.offs[k];
+            let mut hdr = Vec::with_capacity(16);
+            hdr.extend_from_slice(&cr.len.to_le_bytes());
+            hdr.extend_from_slice(&cr.stamp.to_le_bytes());
+            hdr.extend_from_slice(&cr.crc.to_le_bytes());
+            let mut w = orig.clone();
+            if w.len() < a + 16 {
+                w.resize(a + 16, 0);
+            }
+            w[a..a + 16].copy_from_slice(&hdr);
+            match cr.rest {
+                1 => w.truncate(a + 16),
+                2 => w[a + 16..].fill(0),
+                3 => {
+                    w.truncate(a + 16);
+                    w.extend_from_slice(&[0u8; 32]);
+                }
+                _ => {}
+            }
+            evals += 1;
+            ctx.label(if k == f.entries.len() { "mutation:crafted_header_behind_last_entry" } else { "mutation:crafted_header_at_entry_start" });
+            if cr.len == 0 && cr.crc == 0 && cr.stamp != 0 {
+                ctx.label("mutation:crafted_header(len=0,crc=0,stamp!=0)");
+            }
+            check_mutation(&img, m, &w, &|| {
+                format!(
+                    "{} ({} bytes, {} entries): a header len={} stamp={} crc={:08x} stands at offset {} ({}), {}",
+                    f.name,
+                    orig.len(),
+                    f.entries.len(),
+                    cr.len,
+                    cr.stamp,
+                    cr.crc,
+                    a,
+                    if k == f.entries.len() { "behind the last entry".to_string() } else { format!("start of entry {}", k) },
+                    ["old bytes behind it", "the file ends behind it", "zeros behind it up to the old end of the file", "32 zero bytes behind it, then the end"][(cr.rest & 3) as usize]
+                )
+            }, ctx)?;
+            img.store.set(&f.name, orig.clone());
+        }
     }
 
     // ---- generated multi-byte overwrites
@@ -1308,6 +1583,100 @@ fn check_entries_after(case: &ImageCase, ctx: &mut CaseCtx<'_>) -> Result<(), St
                     return Err(format!("recover_with_wal with {} unreadable ({:?}): {} deltas, the other files hold {}", f.name, fault, b.len(), exp.len()));
                 }
             }
+        }
+    }
+    // one file DAMAGED (content, not I/O): the delta-level entry points -- what the server runs at
+    // start-up -- must still succeed and return the deltas of every other file completely plus
+    // the intact prefix of the damaged file ("a damaged file never hides intact entries of
+    // other files", "ends recovery of that file at the last intact entry"). Every damage below
+    // leaves entry k unacceptable for the documented reader (short, CRC mismatch, or len 0).
+    if !has_big(case) {
+        let mut damaged_runs = 0u64;
+        for m in 0..img.files.len().min(6) {
+            let f = &img.files[m];
+            let n = f.entries.len();
+            let mut ks: BTreeSet<usize> = BTreeSet::new();
+            if n > 0 {
+                ks.extend([0, n / 2, n - 1]);
+            }
+            for k in ks {
+                let a = f.offs[k];
+                let mut variants: Vec<(&str, Vec<u8>)> = Vec::new();
+                variants.push(("the file ends inside the header of the entry (9 bytes of it)", f.bytes[..a + 9].to_vec()));
+                variants.push(("the file ends one byte before the end of the entry", f.bytes[..f.offs[k + 1] - 1].to_vec()));
+                {
+                    let mut w = f.bytes[..a + 16].to_vec();
+                    w[a..a + 4].fill(0);
+                    w[a + 12..a + 16].fill(0);
+                    variants.push(("torn header: length and crc fields read back as zero, the stamp is there, the file ends behind the header", w));
+                }
+                {
+                    let mut w = f.bytes.clone();
+                    w[a..a + 4].fill(0);
+                    w[a + 12..a + 16].fill(0);
+                    variants.push(("length and crc fields of the entry read back as zero, everything else unchanged", w));
+                }
+                {
+                    let mut w = f.bytes.clone();
+                    w[a..].fill(0);
+                    w[a + 4 + (k % 8)] ^= 1 << (m % 8);
+                    variants.push(("everything from the entry on reads as zero except one bit in the first block's stamp field", w));
+                }
+                {
+                    let mut w = f.bytes.clone();
+                    w[a + 16] ^= 1;
+                    variants.push(("first payload bit of the entry flipped", w));
+                }
+                let exp: Vec<Vec<u8>> = img
+                    .files
+                    .iter()
+                    .enumerate()
+                    .flat_map(|(i, g)| {
+                        let take = if i == m { k } else { g.entries.len() };
+                        g.entries[..take].iter().map(|&i| case.entries[i].data.clone())
+                    })
+                    .collect();
+                for (vi, (what, w)) in variants.into_iter().enumerate() {
+                    evals += 1;
+                    damaged_runs += 1;
+                    img.store.set(&f.name, w);
+                    let a_res = catch(|| rot.recover_entries_after(0));
+                    // the integration-level entry point for the torn-header variants only (a runtime per call)
+                    let b_res = if vi == 2 || vi == 4 { Some(run_with_wal(&format!("{}: {}", f.name, what))) } else { None };
+                    img.store.set(&f.name, f.bytes.clone());
+                    let ctxt = format!(
+                        "{} ({} of {} files, {} entries) damaged at its entry {}: {}",
+                        f.name,
+                        m + 1,
+                        img.files.len(),
+                        n,
+                        k,
+                        what
+                    );
+                    let got = a_res
+                        .map_err(|p| format!("{}: recover_entries_after(0) panicked: {}", ctxt, p))?
+                        .map_err(|e| format!("{}: recover_entries_after(0) fails as a whole ({}); the log holds {} intact entries in front of / outside the damage", ctxt, e, exp.len()))?;
+                    let got: Vec<Vec<u8>> = got.iter().map(|d| bincode::serialize(d).unwrap_or_default()).collect();
+                    if got != exp {
+                        return Err(format!(
+                            "{}: recover_entries_after(0) returns {} deltas; the other files plus the first {} entries of this file hold {} (same count = content or order differs)",
+                            ctxt,
+                            got.len(),
+                            k,
+                            exp.len()
+                        ));
+                    }
+                    if let Some(b) = b_res {
+                        let b = b.map_err(|e| format!("{}: {}", ctxt, e))?;
+                        if b != exp {
+                            return Err(format!("{}: recover_with_wal returns {} deltas, expected {}", ctxt, b.len(), exp.len()));
+                        }
+                    }
+                }
+            }
+        }
+        if damaged_runs > 0 {
+            ctx.label("delta_level_recovery_with_one_file_damaged");
         }
     }
     if img.files.len() >= 2 && case.entries.len() >= 3 {
@@ -1836,6 +2205,7 @@ fn probe_case() -> ImageCase {
         overwrites: vec![],
         bit_samples: vec![],
         start_seq: 0,
+        crafted: vec![],
     }
 }
 
@@ -1848,14 +2218,15 @@ fn main() {
          well-formed encoded entries or file headers; stamps non-monotone incl. 0 and u64::MAX) appended through WalRotator with a \
          generated rotation threshold (17 bytes .. never) and generated restarts. Per image ENUMERATED: every truncation length of every \
          file, every bit of every file/entry header + first/last/sampled payload bits (thorough: every bit), zero fills from every entry \
-         start, appended tails, generated multi-byte overwrites, every file deletion, every file swap; and truncate_before(T) for every \
+         start, appended tails, every subset of an entry header's fields (length / stamp / crc) read back as zeros or ones with the payload kept / cut off / zero, \
+         zero regions with one bit set, generated entry headers (degenerate field values) placed at entry boundaries, generated multi-byte overwrites, every file deletion, every file swap; and truncate_before(T) for every \
          distinct stamp T, 0 and max+1, with and without an active writer. non-trivial = image has >= 2 files and >= 3 entries (every \
          such image gets mutations strictly inside entries); distinct by the image bytes",
         &args,
     );
     s.assume("crash/corruption model: a mutation changes the bytes of one file (or removes/swaps whole files); the store itself reads back exactly the bytes it holds");
     s.assume("entry payloads are non-empty (bincode of a ReplicationDelta is never empty; WalEntry::from_delta states it as a postcondition)");
-    s.assume("corruption is not a forgery: a mutation after which the first damaged frame is self-consistent (stored CRC-32 = CRC-32 of the stored data, e.g. payload ff ff ff ff with crc ffffffff) is indistinguishable from an appended entry for any checksum; such mutations are skipped and counted as abstained. All-zero blocks are NOT skipped (KF-C10-02)");
+    s.assume("corruption is not a forgery: a mutation after which the first damaged frame is self-consistent (stored CRC-32 = CRC-32 of the stored data, e.g. payload ff ff ff ff with crc ffffffff) is indistinguishable from an appended entry for any checksum; such mutations are skipped and counted as abstained. All-zero blocks are NOT skipped (KF-C10-02), and neither is any other frame whose length field is 0 (len 0 | any stamp | crc 0 = crc32 of nothing is self-consistent, but WalEntry::decode documents that an entry never has an empty payload and rejects it): such a frame must end recovery of the file");
 
     s.probe(
         KF_STAMP,
@@ -1903,7 +2274,7 @@ fn main() {
 
     s.describe_check(
         "images",
-        "per generated image every truncation length, header bit, sampled (thorough: every) payload bit, zero fill, tail, overwrite, deletion and swap; recovered list compared with the exact intact prefix",
+        "per generated image every truncation length, header bit, sampled (thorough: every) payload bit, zero fill, tail, header-field subset zeroed/all-ones (payload kept / cut / zero), zero region with one bit set, generated header at an entry boundary, overwrite, deletion and swap; recovered list compared with the exact intact prefix",
     );
     s.run_cases("images", s.scale(8_000, 60_000), || image_case_with(25), check_image);
 
@@ -1915,7 +2286,7 @@ fn main() {
 
     s.describe_check(
         "entries_after",
-        "images whose payloads are all real deltas: recover_entries_after(T) = deltas of entries with stamp >= T in append order, for every distinct T, 0 and u64::MAX",
+        "images whose payloads are all real deltas: recover_entries_after(T) = deltas of entries with stamp >= T in append order, for every distinct T, 0 and u64::MAX; with one file unreadable or DAMAGED (cut inside an entry, torn header with zero length+crc, zero region with one stamp bit, payload bit) recover_entries_after(0) and RecoveryManager::recover_with_wal still succeed and return the other files completely plus the intact prefix of the damaged file",
     );
     s.run_cases(
         "entries_after",
@@ -1966,6 +2337,7 @@ fn main() {
                         overwrites: vec![],
                         bit_samples: vec![],
                         start_seq: 0,
+                        crafted: vec![],
                     }
                 })
         },
